@@ -61,19 +61,22 @@ PROPS = {
     },
     "C15": {
         "verus": [("manager", [SM + "get_user_state", SM + "compare_db_and_transaction_records", SM + "commit_transaction", SM + "is_transaction_active",
-                               SM + "tic_toc", SM + "increment_metric", "DbRecord.transaction_priority", SM + "get_user_state_versions"])],
+                               SM + "tic_toc", SM + "increment_metric", "DbRecord.transaction_priority", SM + "get_user_state_versions",
+                               SM + "get_from_cache_only", SM + "get", SM + "batch_get"])],
         "search": True,
         "always_search": True,
         "scope": "partial: inside a transaction a single user-state query returns the pending record exactly when it must win against the database answer for that flag "
                  "(SpecificVersion/SpecificEpoch: always; LeqEpoch/MaxEpoch: pending epoch >= database epoch; MinEpoch: <=), the database answer otherwise, NotFound iff both are absent; "
                  "the bulk versions query answers per user the (version, value) of the state that rule selects (HashMap loop through R-MAPITER, any iteration order); "
-                 "commit hands the database exactly the drained log, only if its last record is the epoch record, and reports its size. get_user_data, "
-                 "batched gets and begin/rollback (state behind &self) are not decided.",
+                 "single and batched record gets return the pending record of a key whenever the open transaction has one (a cache hit only for keys without a pending record, "
+                 "the database only for keys with neither); commit hands the database exactly the drained log, only if its last record is the epoch record, and reports its size. "
+                 "get_user_data and begin/rollback (state behind &self) are not decided.",
         "trusted": ["StorageManager is a model struct (same field names; Arc<Db> -> opaque handle with the Database methods as stubs); Transaction / TimedCache / Database methods external",
                     "Transaction::commit_transaction returns the log sorted by transaction_priority (closure/DashMap code outside the verifier)",
                     "that 'pending wins' as specified equals the post-commit read relies on the well-formedness of the data stated in the property (versions increase with epochs)"],
         "assumed": ["well-formed data as stated in the property (precondition wf_pair): per user versions increase with epochs, a rewritten (user, epoch) record keeps its version",
-                    "Database::get_user_state_versions / Transaction::get_users_states answer per user what the single queries answer (stubs)"],
+                    "Database::get_user_state_versions / Transaction::get_users_states answer per user what the single queries answer (stubs)",
+                    "desugarings R-CONTINUE (continue elimination in batch_get's for loop) and R-COLLECT (iterator collect -> trusted set helpers) applied to batch_get; HashSet key model for St::StorageKey is a precondition"],
     },
     "C20": {
         "verus": [("manager", [SM + "tombstone_value_states", SM + "batch_set", SM + "tic_toc", SM + "increment_metric", SM + "is_transaction_active"]),
